@@ -25,10 +25,45 @@ import (
 
 var t0 = time.Unix(1_700_000_000, 0)
 
+// universe: the same AS numbers occur under both ISDs (AS numbers are only unique
+// per ISD), so that roles must be compared by full ISD-AS.
 var universe = []addr.IA{
 	addr.MustParseIA("1-ff00:0:110"), addr.MustParseIA("1-ff00:0:111"),
-	addr.MustParseIA("1-ff00:0:112"), addr.MustParseIA("1-ff00:0:113"),
-	addr.MustParseIA("2-ff00:0:210"), addr.MustParseIA("2-ff00:0:211"),
+	addr.MustParseIA("1-ff00:0:112"), addr.MustParseIA("2-ff00:0:110"),
+	addr.MustParseIA("2-ff00:0:111"), addr.MustParseIA("2-ff00:0:112"),
+}
+
+// strangers: further ISD-ASes with the same AS numbers (ISD 0 and an ISD without
+// any member); they never hold a role.
+var strangers = []addr.IA{
+	addr.MustParseIA("0-ff00:0:110"), addr.MustParseIA("0-ff00:0:111"),
+	addr.MustParseIA("3-ff00:0:110"), addr.MustParseIA("3-ff00:0:112"),
+}
+
+// twin returns an ISD-AS with the AS number of x under another ISD.
+func twin(r *vgen.Rand, x addr.IA) addr.IA {
+	for {
+		isd := addr.ISD(r.Intn(4))
+		if isd != x.ISD() {
+			return addr.MustIAFrom(isd, x.AS())
+		}
+	}
+}
+
+// outsider draws a peer without regard to roles: any member AS, a stranger, or
+// the twin of a role holder of g (same AS number, other ISD).
+func outsider(r *vgen.Rand, g *grp) addr.IA {
+	switch x := r.Intn(4); {
+	case x == 0:
+		return vgen.Pick(r, strangers...)
+	case x <= 2 && g != nil:
+		roles := append([]addr.IA{g.owner, addr.MustIAFrom(g.owner.ISD(), g.id.OwnerAS)}, g.writers...)
+		roles = append(roles, g.readers...)
+		roles = append(roles, g.registries...)
+		return twin(r, vgen.Pick(r, roles...))
+	default:
+		return vgen.Pick(r, universe...)
+	}
 }
 
 // iaT prints an ISD-AS as the pair (ISD, low 16 bits of the AS number): an
@@ -161,8 +196,21 @@ func genHistory(r *vgen.Rand, mutated bool) *history {
 		owner := vgen.Pick(r, universe...)
 		g := grp{id: hiddenpath.GroupID{OwnerAS: owner.AS(), Suffix: uint16(i + 1)}, owner: owner,
 			writers: subset(r, 1, 3), readers: subset(r, 0, 2), registries: subset(r, 1, 2)}
-		if !has(g.registries, h.local) && !r.Chance(1, 6) {
-			g.registries = append(g.registries, h.local)
+		if r.Chance(1, 4) {
+			// the AS number in the group id is that of some other AS (the servers
+			// look at Owner, never at ID.OwnerAS)
+			g.id.OwnerAS = vgen.Pick(r, universe...).AS() + addr.AS(r.Intn(2))*0x100
+		}
+		if !has(g.registries, h.local) {
+			switch x := r.Intn(12); {
+			case x == 0: // local AS is no registry
+			case x == 1: // only its twin in the other ISD is
+				if t := addr.MustIAFrom(3-h.local.ISD(), h.local.AS()); !has(g.registries, t) {
+					g.registries = append(g.registries, t)
+				}
+			default:
+				g.registries = append(g.registries, h.local)
+			}
 		}
 		h.groups = append(h.groups, g)
 	}
@@ -189,7 +237,7 @@ func genHistory(r *vgen.Rand, mutated bool) *history {
 			if g != nil && !flaw() {
 				o.peer = vgen.Pick(r, g.writers...)
 			} else {
-				o.peer = vgen.Pick(r, universe...)
+				o.peer = outsider(r, g)
 			}
 			ns := r.Range(1, 3)
 			if r.Chance(1, 20) {
@@ -230,6 +278,9 @@ func genHistory(r *vgen.Rand, mutated bool) *history {
 		switch {
 		case r.Chance(3, 4):
 			o.dst = h.shapes[r.Intn(len(h.shapes))].end
+			if r.Chance(1, 8) {
+				o.dst = twin(r, o.dst) // same AS number, other ISD
+			}
 		case r.Chance(1, 2):
 			o.dst = addr.MustIAFrom(addr.ISD(r.Range(0, 2)), 0)
 		case r.Chance(1, 3):
@@ -243,7 +294,7 @@ func genHistory(r *vgen.Rand, mutated bool) *history {
 			members = append(members, first.registries...)
 			o.peer = vgen.Pick(r, members...)
 		} else {
-			o.peer = vgen.Pick(r, universe...)
+			o.peer = outsider(r, first)
 		}
 		h.ops = append(h.ops, o)
 	}
@@ -503,7 +554,7 @@ func main() {
 	run.ShardSize = 150
 	run.Prelude = "Import HiddenPath."
 	run.Rule = "histories of 8-18 registrations/requests against real RegistryServer + AuthoritativeServer + " +
-		"Storer over an in-memory sqlite path DB; 2-4 random groups over 6 ASes in 2 ISDs, 3-6 segment shapes " +
+		"Storer over an in-memory sqlite path DB; 2-4 random groups over 6 ASes in 2 ISDs with the same AS numbers in both (plus role-less twins in ISD 0/3 and group ids naming another AS), 3-6 segment shapes " +
 		"(real signed-format segments) in versions 1..; mostly admissible ops, each ingredient flawed with " +
 		"p=1/14 (every 4th history: p=1/4): unknown/zero group, non-writer, non-member, local AS not a registry, " +
 		"non-down segment, failing verification, no/duplicate group ids, wildcard/zero-ISD destinations, empty " +
